@@ -115,7 +115,7 @@ class Cluster:
             yield self.env.timeout(TIMESTEP)
 
     def check_ingest_capacity(self, pipeline_demand, max_ingest_resources,
-                              c='default'):
+                              c='default', reserved=0):
         """
         Check if the Cluster has the machine capacity to process the
         observation Ingest pipeline
@@ -154,10 +154,14 @@ class Cluster:
         if pipeline_demand > max_ingest_resources:
             return False
 
-        if len(self._clusters[c]['resources'][
-                   'available']) >= pipeline_demand and len(
-            self._clusters[c]['resources'][
-                'ingest']) + pipeline_demand <= max_ingest_resources:
+        # Machines already promised to observations that begin in this same
+        # timestep (reserved by the scheduler, not yet moved to the ingest
+        # pool) are no longer free for another one.
+        promised = reserved - num_ingest
+        if promised < 0:
+            promised = 0
+        if num_available - promised >= pipeline_demand and (
+                num_ingest + pipeline_demand <= max_ingest_resources):
             return True
         else:
             return False
